@@ -11,6 +11,16 @@ def register(reg):
         uf_params=["x", "y"], assumed=True,
         note="math.factorial quotient; equality with math.comb(x+y, x) is checked on a box (C19)",
         ensures=[("is_BETA", "result == BETA(x, y)")], frame=[], props=("C19",)))
+    reg.spec_axioms("BETA", [
+        # binomial coefficients are >= 1 (assumed property of beta; beta == math.comb is a bounded clause)
+        ("BETA.positive", "forall_int(lambda x, y: implies(x >= 0 and y >= 0, BETA(x, y) >= 1))")])
+    # PERIOD: the closed form of Aupy & Herrmann (2017) - definitional axiom
+    reg.spec_function("PERIOD", ["int", "real", "real", "real"], "int")
+    reg.spec_axioms("PERIOD", [
+        ("PERIOD.closed_form", "forall_int(lambda cm: forall_real(lambda uf, rd, wd: implies("
+                               "cm >= 0 and uf > 0 and rd >= 0 and wd >= 0, exists_int(lambda t: t >= 0 and "
+                               "forall(0, t, lambda k: BETA(cm + 1, k) <= (wd + rd) / uf) and "
+                               "BETA(cm + 1, t) > (wd + rd) / uf and PERIOD(cm, uf, rd, wd) == int(BETA(cm, t))))))")])
     # F44: the period is beta(cm, t*) with t* the first t >= 0 with beta(cm+1, t) > (wd+rd)/uf -
     # the closed form of Aupy & Herrmann (2017); it does not depend on the number of steps
     # (the function has no such parameter).
@@ -19,12 +29,83 @@ def register(reg):
         params=[("cm", "int"), ("uf", "real"), ("rd", "real"), ("wd", "real")],
         requires=[("costs", "uf > 0 and rd >= 0 and wd >= 0"), ("slots", "cm >= 0")],
         returns="int",
-        ensures=[("t_nonnegative", "t >= 0"),
-                 ("all_smaller_t_do_not_exceed", "forall(0, t, lambda k: BETA(cm + 1, k) <= (wd + rd) / uf)"),
-                 ("t_exceeds", "BETA(cm + 1, t) > (wd + rd) / uf"),
-                 ("period_is_beta_cm_t", "result == int(BETA(cm, t))")],
+        ensures=[("local:t_nonnegative", "t >= 0"),
+                 ("local:all_smaller_t_do_not_exceed", "forall(0, t, lambda k: BETA(cm + 1, k) <= (wd + rd) / uf)"),
+                 ("local:t_exceeds", "BETA(cm + 1, t) > (wd + rd) / uf"),
+                 ("local:period_is_beta_cm_t", "result == int(BETA(cm, t))"),
+                 ("period_is_the_closed_form", "result == PERIOD(cm, uf, rd, wd)"),
+                 ("period_positive", "result >= 1")],
         frame=[], props=("C19",), exc_props={"*": ("C19", "C17")},
         loops=[LoopSpec("beta(cm + 1, t) <= (wd + rd) / uf", [
             ("t_nonnegative", "t >= 0"),
             ("all_smaller_t_do_not_exceed", "forall(0, t, lambda k: BETA(cm + 1, k) <= (wd + rd) / uf)")],
             decreases=None)]))
+
+
+    # F45 ---------------------------------------------------------------- periodic_disk_revolve
+    # PDRC(l, ...): cost of the periodic schedule with period mx, as its recurrence: one period costs a
+    # disk write, the sweep over the period, (later) a disk read and the memory-only reversal of the
+    # period; the last min(l, mx) steps are reversed from memory.
+    COSTS = ["uf", "ub", "rd", "wd"]
+    reg.spec_function("PDRC", ["int", "int", "int", "real", "real", "real", "real"], "real")
+    reg.axiom_schema("PDRC", "PDRC.last_segment", ["l", "cm", "mx"], COSTS,
+                     "implies(0 <= l and l <= mx, PDRC(l, cm, mx, uf, ub, rd, wd) == "
+                     "OPT0(cm, l, uf, ub) + (l + 1) * uf)")
+    reg.axiom_schema("PDRC", "PDRC.period", ["l", "cm", "mx"], COSTS,
+                     "implies(l > mx and mx >= 1, PDRC(l, cm, mx, uf, ub, rd, wd) == wd + mx * uf + "
+                     "PDRC(l - mx, cm, mx, uf, ub, rd, wd) + rd + OPT0(cm, mx - 1, uf, ub) + mx * uf)")
+    # costs already paid by the forward sweep (S1) / still to be paid by the reverse sweep (S2) when
+    # the sweep stands at a multiple x of the period
+    reg.spec_function("PDRS1", ["int", "int", "real", "real"], "real")
+    reg.axiom_schema("PDRS1", "PDRS1.zero", ["mx"], ["uf", "wd"], "PDRS1(0, mx, uf, wd) == 0")
+    reg.axiom_schema("PDRS1", "PDRS1.step", ["x", "mx"], ["uf", "wd"],
+                     "implies(x >= 0, PDRS1(x + mx, mx, uf, wd) == PDRS1(x, mx, uf, wd) + wd + mx * uf)")
+    reg.spec_function("PDRS2", ["int", "int", "int", "real", "real", "real"], "real")
+    reg.axiom_schema("PDRS2", "PDRS2.zero", ["cm", "mx"], ["uf", "ub", "rd"], "PDRS2(0, cm, mx, uf, ub, rd) == 0")
+    reg.axiom_schema("PDRS2", "PDRS2.step", ["x", "cm", "mx"], ["uf", "ub", "rd"],
+                     "implies(x >= 0, PDRS2(x + mx, cm, mx, uf, ub, rd) == PDRS2(x, cm, mx, uf, ub, rd) + rd + "
+                     "OPT0(cm, mx - 1, uf, ub) + mx * uf)")
+    reg.arith_lemma("positive_multiple_is_at_least_the_period", ["x", "p"], ["p >= 1", "x > 0", "x % p == 0"],
+                    "x >= p and (x - p) % p == 0", props=("C19",))
+    reg.arith_lemma("next_multiple", ["x", "p"], ["p >= 1", "x >= 0", "x % p == 0"], "(x + p) % p == 0",
+                    props=("C19",))
+    R = "PDRC(%s, cm, mx, uf, ub, rd, wd)"
+    S1 = "PDRS1(%s, mx, uf, wd)"
+    S2 = "PDRS2(%s, cm, mx, uf, ub, rd)"
+    TABLE = ("opt_0 is not None and len(opt_0) >= cm + 1 and forall(1, cm + 1, lambda m: len(opt_0[m]) >= mx + 2 and "
+             "forall(0, mx + 2, lambda k: opt_0[m][k] == OPT0(m, k, uf, ub)))")
+    reg.add(Contract(
+        "seq.periodic_disk_revolve.periodic_disk_revolve",
+        params=[("l", "int"), ("cm", "int"), ("rd", "real"), ("wd", "real"), ("uf", "real"), ("ub", "real"),
+                ("opt_0", "none"), ("opt_1d", "none"), ("mmax", "none")],
+        defaults={"opt_0": "None", "opt_1d": "None", "mmax": "None"},
+        requires=[("domain", "l >= 0 and cm >= 1 and uf > 0 and rd >= 0 and wd >= 0")],
+        returns=("obj", "Sequence"),
+        ensures=[("makespan_is_the_periodic_cost_with_the_closed_form_period",
+                  "result.makespan == PDRC(l, cm, PERIOD(cm, uf, rd, wd), uf, ub, rd, wd)")],
+        frame=[], props=("C19", "C07"), exc_props={"*": ("C19", "C17")},
+        hints={"current_task": [
+            ("use", "positive_multiple_is_at_least_the_period", ["current_task + mx", "mx"]),
+            ("use", "next_multiple", ["current_task - mx", "mx"]),
+            ("use", "PDRC.period", ["l - current_task + mx", "cm", "mx", "uf", "ub", "rd", "wd"]),
+            ("use", "PDRS1.step", ["current_task - mx", "mx", "uf", "wd"]),
+            ("use", "PDRS2.step", ["current_task - mx", "cm", "mx", "uf", "ub", "rd"]),
+            ("use", "PDRS2.step", ["current_task", "cm", "mx", "uf", "ub", "rd"])],
+            "return": [
+            ("use", "PDRS2.zero", ["cm", "mx", "uf", "ub", "rd"])]},
+        loops=[
+            LoopSpec("l - current_task > mx", [
+                ("period", "mx == PERIOD(cm, uf, rd, wd) and mx >= 1"),
+                ("table", TABLE),
+                ("position", "0 <= current_task and current_task <= l and current_task % mx == 0"),
+                ("paid_so_far", "sequence.makespan == " + S1 % "current_task"),
+                ("total", R % "l" + " == " + S1 % "current_task" + " + " + R % "l - current_task" + " + "
+                 + S2 % "current_task")],
+                decreases="l - current_task"),
+            LoopSpec("current_task > 0", [
+                ("period", "mx == PERIOD(cm, uf, rd, wd) and mx >= 1"),
+                ("table", TABLE),
+                ("position", "0 <= current_task and current_task % mx == 0"),
+                ("remaining", "sequence.makespan == " + R % "l" + " - " + S2 % "current_task")],
+                decreases="current_task"),
+        ]))
